@@ -366,10 +366,13 @@ func (b *Buffer) grow(n int) {
 	} else {
 		newLen = cap(b.core) * 2
 	}
+	if needed := b.writePos - b.readPos + n; newLen < needed {
+		newLen = needed
+	}
 	buf := make([]byte, newLen)
 	Log.Debugf("Buffer::grow. need=%d, old len=%d, cap=%d, new len=%d", n, b.Len(), cap(b.core), newLen)
 	copy(buf, b.core[b.readPos:b.writePos])
 	b.core = buf
-	b.readPos = 0
 	b.writePos = b.writePos - b.readPos
+	b.readPos = 0
 }
